@@ -65,7 +65,7 @@ impl Check for C04 {
             .into()
     }
     fn budget(t: Tier) -> usize {
-        t.pick(60_000, 1_000_000)
+        t.pick(60_000, 5_000_000)
     }
     fn gen(s: &mut Src, _t: Tier) -> Case {
         let o = GenOpts { density: 6, max_ops: 4, max_values: 200, fat_chance: (0, 1), ..GenOpts::default() };
